@@ -72,6 +72,7 @@ def load(
     igens: Optional[Sequence[Any]] = None,
     write_outputs: bool = False,
     time_step_stats: bool = False,
+    keep_existing: bool = False,
     sim_overrides: Optional[Dict[str, Any]] = None,
     dispatcher_overrides: Optional[Dict[str, Any]] = None,
     lazy: bool = False,
@@ -117,7 +118,7 @@ def load(
     if dispatcher_overrides:
         disp = disp._replace(**dispatcher_overrides)
     out = Path(out_dir) / f"{sim_cfg.sim_name}_{suffix}"
-    if out.exists():
+    if out.exists() and not keep_existing:      # keep_existing: a user who names an output directory that is already there
         shutil.rmtree(out)
     out.parent.mkdir(parents=True, exist_ok=True)
     config = config._replace(global_config=gc, sim=sim_cfg, dispatcher=disp, scenario_output_directory=out)
